@@ -573,6 +573,9 @@ func (k *Kernel) restore(args []string, stdin string, ev *Event) (int, string) {
 				return bad(n, &fail{rej: RejSyntax, exit: 2, msg: "iptables-restore: COMMIT outside a table"})
 			}
 			if !skip {
+				if !tablesEqual(k.Tables[cur.Name], cur) {
+					ev.Changed = true
+				}
 				k.Tables[cur.Name] = cur
 			}
 			cur = nil
@@ -634,7 +637,6 @@ func (k *Kernel) restore(args []string, stdin string, ev *Event) (int, string) {
 func (k *Kernel) Exec(tool string, args []string, stdin string) *Event {
 	k.Execs++
 	ev := &Event{Tool: tool, Args: args, Stdin: stdin}
-	var before string
 	switch tool {
 	case "iptables":
 		if len(args) == 1 && (args[0] == "--version" || args[0] == "-V") {
@@ -653,8 +655,9 @@ func (k *Kernel) Exec(tool string, args []string, stdin string) *Event {
 			ev.Out = fmt.Sprintf("iptables v1.4.21: can't initialize iptables table `%s': Table does not exist (do you need to insmod?)\n", c.table)
 			break
 		}
+		var snap *Table
 		if ev.Mutator {
-			before = k.Save(c.table)
+			snap = t.clone()
 		}
 		out, f := k.apply(t, c)
 		if f != nil {
@@ -663,7 +666,7 @@ func (k *Kernel) Exec(tool string, args []string, stdin string) *Event {
 			ev.Out = out
 		}
 		if ev.Mutator {
-			ev.Changed = before != k.Save(c.table)
+			ev.Changed = !tablesEqual(snap, t)
 		}
 	case "iptables-save":
 		table := ""
@@ -689,9 +692,7 @@ func (k *Kernel) Exec(tool string, args []string, stdin string) *Event {
 			break
 		}
 		ev.Mutator = true
-		before = k.saveTables()
 		ev.Exit, ev.Out = k.restore(args, stdin, ev)
-		ev.Changed = before != k.saveTables()
 	case "ipset":
 		k.execIPSet(args, ev)
 	default:
@@ -701,6 +702,25 @@ func (k *Kernel) Exec(tool string, args []string, stdin string) *Event {
 		k.OnEvent(ev)
 	}
 	return ev
+}
+
+// tablesEqual compares two versions of a table (chains, policies and rule texts in order).
+func tablesEqual(a, b *Table) bool {
+	if len(a.Chains) != len(b.Chains) {
+		return false
+	}
+	for n, ca := range a.Chains {
+		cb := b.Chains[n]
+		if cb == nil || ca.Policy != cb.Policy || len(ca.Rules) != len(cb.Rules) {
+			return false
+		}
+		for i := range ca.Rules {
+			if ca.Rules[i] != cb.Rules[i] && ca.Rules[i].text != cb.Rules[i].text {
+				return false
+			}
+		}
+	}
+	return true
 }
 
 func (k *Kernel) saveTables() string {
